@@ -1,0 +1,9 @@
+//go:build verif
+
+// Contract for the rule-id getter used by the ctl action (package corazarules), checked by /verif/govc
+// (comment-only file; no code).
+package corazarules
+
+//@ func (*RuleMetadata).ID props C17,C07
+//@   modifies nothing
+//@   ensures result == r.ID_
